@@ -54,6 +54,8 @@ def gen_obj(rng):
     obj = {'kind': kind, 'formula': lang.to_jsonable(f), 'data': data, 'reps': rng.choice([1, 2, 2, 3])}
     if rng.random() < 0.3 and any(g[1] is not None for g in lang.walk(f)):
         obj['units'] = rng.choice(['s', 'ms', 'us'])
+    if kind == 'dt_off' and rng.random() < 0.25:
+        obj['tuples'] = True
     if kind in ('dt_off', 'ct_off') and len(names) >= 2 and rng.random() < 0.4:
         obj['poison'] = rng.choice(names)
         obj['reps'] = max(obj['reps'], 2)
@@ -216,13 +218,24 @@ class C11(Prop):
         for meth, spec in calls_of(obj):
             tw = monitors.Tripwire()
             args = build_args(obj, spec, tw)
+            if obj.get('tuples') and spec[0] == 'dt':
+                # immutable columns (what zip(*rows) or a tuple-based loader produces): they cannot be modified, but
+                # the entries of the caller's dictionary can be re-bound
+                args = (dict((k, tuple(col)) for k, col in args[0].items()),)
+                v.info['purity:tuple-columns'] = 1
             before = monitors.plain(args)
+            entries = [(a, k, a[k]) for a in args if isinstance(a, dict) for k in list(a)]
             try:
                 r = getattr(m, meth)(*args)
             except Exception as e:
                 v.skip = 'call raised %s (C17/C01 territory)' % type(e).__name__
                 return v
             after = monitors.plain(args)
+            for a, k, orig in entries:
+                if k not in a or a[k] is not orig:
+                    v.bad('argument-rebound', '%s [%s]: %s replaced the entry %r of the dictionary it was given: %s -> %s'
+                          % (text, obj['kind'], meth, k, type(orig).__name__, type(a.get(k)).__name__))
+                    return v
             if not monitors.same_plain(before, after):
                 v.bad('argument-mutated', '%s [%s]: %s changed its argument: before=%s after=%s; tripwire: %s' % (
                     text, obj['kind'], meth, repr(before)[:300], repr(after)[:300], tw.events[:3]))
